@@ -728,7 +728,9 @@ class Processes:
             # the visibility of 'debug' commands from external processes
             log.warning(lazymsg('api.response.content process={p} response={r}', p=process, r=string), 'api')
 
-        data = bytes(f'{string}\n', 'ascii')
+        # the pipe is ASCII; a text event can carry a character a peer chose (host name, advisory, BGP-LS name):
+        # escape it rather than raise UnicodeEncodeError in the middle of reading that peer's message
+        data = f'{string}\n'.encode('ascii', 'backslashreplace')
 
         # In async mode, queue the write instead of blocking
         if self._async_mode:
@@ -849,7 +851,7 @@ class Processes:
             # the visibility of 'debug' commands from external processes
             log.warning(lazymsg('api.response.content process={p} response={r}', p=process, r=string), 'api')
 
-        data = bytes(f'{string}\n', 'ascii')
+        data = f'{string}\n'.encode('ascii', 'backslashreplace')
 
         # Get stdin file descriptor (non-blocking, set in _start())
         stdin_fd = self._get_stdin(process).fileno()
